@@ -232,7 +232,10 @@ def union_rule(prog, rep):
     loops = [s for s in body if isinstance(s, ast.For)]
     sweep_l = [l for l in loops if any(isinstance(x, ast.If) for x in l.body)]
     # the list the sweep walks (under whatever name) is bound once, to the sorted concatenation of both parameters
-    swept = norm(sweep_l[0].iter) if len(sweep_l) == 1 else "events"
+    it_ = sweep_l[0].iter if len(sweep_l) == 1 else None
+    if isinstance(it_, ast.Subscript) and isinstance(it_.slice, ast.Slice):
+        it_ = it_.value  # events[1:] after the first element seeded the output
+    swept = norm(it_) if it_ is not None else "events"
     sorted_defs = [s for s in body if isinstance(s, ast.Assign) and len(s.targets) == 1 and norm(s.targets[0]) == swept]
     oks = len(sorted_defs) == 1 and norm(sorted_defs[0].value) in (f"sorted({p1} + {p2})", f"sorted({p2} + {p1})")
     rep.check(oks, "UNION", fi.short, "sorted concatenation", "events = sorted(events1 + events2)", "the sweep does not run over the sorted concatenation of both lists", fi.loc())
@@ -378,9 +381,15 @@ def check(prog, rep):
     from .c13 import normalisation
 
     normalisation(prog, rep)
+    # both functions sort events: the order must be defined for every pair of events
+    from .c13 import event_order
+
+    event_order(prog, rep)
 
 
 VARIANTS = [
+    ("B events ordered by (timestamp, duration, id)", "aw_core/models.py", "            return self.timestamp < other.timestamp\n", "            return (self.timestamp, self.duration, self.id) < (other.timestamp, other.duration, other.id)\n", "ORDER-KEY"),
+
     ("B deepcopy dropped in _replace_event_period", F, "    e = deepcopy(event)\n    e.timestamp = period.start", "    e = event\n    e.timestamp = period.start", "PURE"),
     ("B caller passes the input list to the in-place sort", F, "    events = sorted(events)\n    filterevents = sorted(filterevents)\n", "    filterevents = sorted(filterevents)\n", "PURE"),
     ("B advance the other index", F, "            if e1_p.end <= e2_p.end:\n                e1_i += 1\n            else:\n                e2_i += 1", "            if e1_p.end <= e2_p.end:\n                e2_i += 1\n            else:\n                e1_i += 1", "SWEEP"),
